@@ -140,7 +140,8 @@ Through(I, root, c, p) ==
 \*      the "keyed" rule only compares states whose cardinality has the same parity
 PopCount(I, q) == IF I.family = "knapsack" THEN Cardinality({i \in 0..30 : (q \div (2 ^ i)) % 2 = 1}) ELSE Cardinality(q)
 DomCoords(I, st) == IF I.family = "knapsack" THEN <<st.x[1]>> ELSE [i \in 1..I.b |-> IF i \in ToSet(st.x) THEN 1 ELSE 0]
-DomKey(I, st) == IF I.dom = "keyed" THEN PopCount(I, Q(I, st)) % 2 ELSE 0
+\* "keyed": states whose cardinality is a multiple of 3 have no key at all (-1 = DominanceStore!NoDKey)
+DomKey(I, st) == IF I.dom = "keyed" THEN (IF PopCount(I, Q(I, st)) % 3 = 0 THEN -1 ELSE PopCount(I, Q(I, st)) % 2) ELSE 0
 
 \* ---- well-formedness (hypotheses of the properties), evaluated on every instance before anything else
 StateCode(I, q) == IF I.family = "knapsack" THEN q ELSE FoldSet(LAMBDA e, acc : acc + 2 ^ (e - 1), 0, q)     \* the harness' bit mask / capacity
